@@ -1,7 +1,7 @@
 (* Whole-stream witnesses of the open C01 findings, in the model: on each
-   stored witness the channel model (observed as in C01Observe) and the strict
-   RFC 9112 reference disagree.  GENERATED from KNOWN_FINDINGS.txt by
-   checks/C01.py conventions; compiled separately, failure is a note. *)
+   stored witness of KNOWN_FINDINGS.txt the channel model (observed as in
+   C01Observe) and the strict RFC 9112 reference disagree.  Compiled
+   separately; a failure is a note (the finding stopped reproducing). *)
 From Coq Require Import List NArith ZArith Bool.
 From WV Require Import Lib.PyBytes Lib.Regex Model.Receiver Model.Parser Model.ChanSeq Spec.Ref9112 Proof.C01Observe.
 Import ListNotations.
@@ -53,10 +53,4 @@ Proof. intro H. vm_compute in H. discriminate H. Qed.
 Definition w_target_nonascii : bytes := [71;69;84;32;47;47;97;233;32;72;84;84;80;47;49;46;49;13;10;13;10].
 Lemma target_nonascii_refuted :
   observe (feed adj0 chan_init [w_target_nonascii]) <> Some (map (ref_view no_devs) (ref_run (cfg_of adj0) w_target_nonascii)).
-Proof. intro H. vm_compute in H. discriminate H. Qed.
-
-(* kf_c01_expect_continue_reset : b'GET /a HTTP/1.1\r\nHost: h\r\nExpect: 100-continue\r\n\r\nGET /b HTTP/1.1\r\nHost: h\r\n\r\n' *)
-Definition w_expect_continue_reset : bytes := [71;69;84;32;47;97;32;72;84;84;80;47;49;46;49;13;10;72;111;115;116;58;32;104;13;10;69;120;112;101;99;116;58;32;49;48;48;45;99;111;110;116;105;110;117;101;13;10;13;10;71;69;84;32;47;98;32;72;84;84;80;47;49;46;49;13;10;72;111;115;116;58;32;104;13;10;13;10].
-Lemma expect_continue_reset_refuted :
-  observe (feed adj0 chan_init [w_expect_continue_reset]) <> Some (map (ref_view no_devs) (ref_run (cfg_of adj0) w_expect_continue_reset)).
 Proof. intro H. vm_compute in H. discriminate H. Qed.
